@@ -7,3 +7,43 @@ check(
     "bounded-exhaustive shape enumeration + Hypothesis random trees vs. reference traversal orders",
     "DESIGN.md section 4 C05",
 )
+check(
+    "C04",
+    "exploration",
+    "Every node of every ordered tree shape up to 7 (quick) / 9 (thorough) nodes is checked against definitions recomputed from .parent/.children only (identity comparison), commonancestors on all pairs/triples and degenerate argument lists; Hypothesis adds trees up to 40 nodes and mutation histories with all attributes re-checked after every step. Complete below the bound, sampled above.",
+    "Trusts the recomputation in vf/props/c04.py; equal-comparing/falsy node classes are the business of C17, not of this check.",
+    "bounded-exhaustive shapes + Hypothesis trees and mutation histories vs. definitions recomputed from the links",
+    "DESIGN.md section 4 C04",
+)
+check(
+    "C06",
+    "exploration",
+    "The complete product start node x stop subset x filtered-out subset x maxlevel is enumerated on every shape with <= 5 (quick) / <= 6 (thorough) nodes for all five iterators (both ways of passing empty predicates, keyword and positional), and compared with the reference 'admitted set' restriction of the unrestricted order; Hypothesis adds trees up to 25 nodes. Exhaustive inside the bound, sampled beyond.",
+    "Trusts the admitted-set reference in vf/refs.py; predicates are pure functions of node identity.",
+    "bounded-exhaustive option product + Hypothesis vs. admitted-set reference restriction",
+    "DESIGN.md section 4 C06",
+)
+check(
+    "C09",
+    "exploration",
+    "Rows of RenderTree are compared with a row oracle built from 'has following sibling' flags for every shape <= 6/7 nodes x start x 7 styles x 5 childiters x every maxlevel, and the drawing is decoded back into a shape from the prefixes alone; Hypothesis adds larger trees, random equal-width styles, multi-line/empty/list/tuple/int/missing/callable values for by_attr and str(), and Node/AnyNode/SymlinkNode reprs with generated attributes and separators.",
+    "Assumes lines are separated by '\\n' only and values carry no trailing newline (not generated); custom styles are decodable (cont != end, vertical != blank).",
+    "bounded-exhaustive shapes x options + Hypothesis text values vs. row oracle and decode-back round trip",
+    "DESIGN.md section 4 C09",
+)
+check(
+    "C14",
+    "exploration",
+    "For generated attributed trees (nodes may lack the searched attribute) every (mincount, maxcount) combination around the true match count is executed for findall/findall_by_attr in search and cachedsearch, keyword and positional, plus find/find_by_attr; results are compared by identity with the reference filtered pre-order, CountError is required iff a bound is violated and its message must name both numbers.",
+    "Trusts the C06 reference; fastcache is not installed in this sandbox so cachedsearch runs its pass-through wrappers (the property's 'same results' clause is checked on them).",
+    "Hypothesis attributed trees + systematic small cases vs. reference filtered pre-order and iff count-bound predicate",
+    "DESIGN.md section 4 C14",
+)
+check(
+    "C15",
+    "exploration",
+    "Every ordered pair of nodes of every shape up to 7 (quick) / 9 (thorough) nodes, cross-tree pairs, and sampled pairs on Hypothesis trees up to 60 nodes: the triple is compared with path arithmetic on ancestor chains recomputed from .parent, the link/simple-path clauses are checked directly, walk(end,start) must be the mirror image, WalkError iff roots differ.",
+    "Trusts the ancestor-chain arithmetic in vf/props/c15.py.",
+    "bounded-exhaustive shapes x all ordered pairs + Hypothesis vs. ancestor-chain path arithmetic and mirror relation",
+    "DESIGN.md section 4 C15",
+)
